@@ -903,8 +903,160 @@ func trailingSpacePolicy(c *Ctx, rule string) {
 			gf.Name+": the trailing whitespace of a node is no longer written under the `both neighbours inline` flag")
 	}
 	if !found {
+		found = trailingSpacePolicyOnPaths(c, rule)
+	}
+	if !found {
 		c.viol(rule, "anchor-lost:trailing-space-policy", "", "no node dispatcher (current, next parser.Node) computing the trailing-space flag was found")
 	}
+}
+
+// trailingSpacePolicyOnPaths: the same policy read off the paths of whichever function of the generator takes the two
+// nodes (current, next) and consults the current node's recorded trailing space — a dispatcher that writes it, or a
+// function that returns what to write. On every path that evaluates <node>.Trailing() the same classifier was taken as
+// true for both nodes; on every other path that does not fail, it was taken as false for one of them or the node
+// records no trailing space.
+func trailingSpacePolicyOnPaths(c *Ctx, rule string) bool {
+	gp := c.pkg("generator")
+	info := gp.TypesInfo
+	nodeT, _ := c.pkg("parser/v2").Types.Scope().Lookup("Node").(*types.TypeName)
+	found := false
+	for _, fd := range allFuncDecls(gp) {
+		if fd.Body == nil || nodeT == nil {
+			continue
+		}
+		var nodeParams []types.Object
+		for _, prm := range paramObjs(info, fd) {
+			if prm != nil && types.Identical(prm.Type(), nodeT.Type()) {
+				nodeParams = append(nodeParams, prm)
+			}
+		}
+		if len(nodeParams) != 2 {
+			continue
+		}
+		cur, next := nodeParams[0], nodeParams[1]
+		readsTrailing := func(n ast.Node) bool {
+			hit := false
+			ast.Inspect(n, func(m ast.Node) bool {
+				if call, ok := m.(*ast.CallExpr); ok {
+					if se, ok := ast.Unparen(call.Fun).(*ast.SelectorExpr); ok && se.Sel.Name == "Trailing" && len(call.Args) == 0 {
+						hit = true
+					}
+				}
+				return !hit
+			})
+			return hit
+		}
+		if !readsTrailing(fd.Body) {
+			continue
+		}
+		den := &denum{info: info, pkg: gp.Types, inits: map[types.Object]ast.Expr{}, limit: 20000, opaqueLoops: true}
+		den.finish(den.run(fd.Body.List, []dstate{{env: map[types.Object]ast.Expr{}}}))
+		key := funcKey(gp, fd)
+		found = true
+		if den.undecided != "" {
+			c.undec(rule, key+"|space-needed-iff-both-inline", c.pos(fd.Pos()), fd.Name.Name+" contains "+den.undecided)
+			continue
+		}
+		// classifier atoms of a path: cls(cur) / cls(next) with their truth value
+		type clsAtom struct {
+			fn  *types.Func
+			on  types.Object
+			val bool
+		}
+		atomsOf := func(pth dpath) (out []clsAtom, assertFailed, failed bool) {
+			for _, pc := range pth.Conds {
+				e := ast.Unparen(pc.Expr)
+				if call, ok := e.(*ast.CallExpr); ok && len(call.Args) == 1 {
+					if fn := calleeOf(info, call); fn != nil && fn.Pkg() == gp.Types {
+						if id, ok := ast.Unparen(call.Args[0]).(*ast.Ident); ok {
+							out = append(out, clsAtom{fn, info.ObjectOf(id), pc.Val})
+						}
+					}
+				}
+				if _, isTA := e.(*ast.TypeAssertExpr); isTA && !pc.Val {
+					assertFailed = true
+				}
+				if ix, ok := e.(*ast.IndexExpr); ok && !pc.Val {
+					if _, isTA := ast.Unparen(ix.X).(*ast.TypeAssertExpr); isTA {
+						assertFailed = true // the comma-ok of the trailer assertion, recorded as <assertion>[1]
+					}
+				}
+				if id, ok := e.(*ast.Ident); ok && !pc.Val {
+					// the comma-ok of the trailer assertion
+					if b, bound := pth.Env[info.ObjectOf(id)]; bound {
+						if ix, ok := ast.Unparen(b).(*ast.IndexExpr); ok {
+							if _, isTA := ast.Unparen(ix.X).(*ast.TypeAssertExpr); isTA {
+								assertFailed = true
+							}
+						}
+						if _, isTA := ast.Unparen(b).(*ast.TypeAssertExpr); isTA {
+							assertFailed = true
+						}
+					}
+				}
+				if be, ok := e.(*ast.BinaryExpr); ok && pc.Val && be.Op == token.NEQ && types.ExprString(be.Y) == "nil" {
+					if t := info.TypeOf(be.X); t != nil && isErrorType(t) {
+						failed = true
+					}
+				}
+			}
+			return
+		}
+		badRender, badSkip := "", ""
+		nrender := 0
+		for _, pth := range den.paths {
+			renders := false
+			for _, st := range pth.Trace {
+				if readsTrailing(st) {
+					renders = true
+				}
+			}
+			if pth.Ret != nil && readsTrailing(pth.Ret) {
+				renders = true
+			}
+			for _, pc := range pth.Conds {
+				if readsTrailing(pc.Expr) {
+					renders = true
+				}
+			}
+			atoms, assertFailed, failed := atomsOf(pth)
+			var took []string
+			for _, pc := range pth.Conds {
+				took = append(took, fmt.Sprintf("%s=%v", types.ExprString(pc.Expr), pc.Val))
+			}
+			if renders {
+				nrender++
+				var fc, fn2 *types.Func
+				for _, a := range atoms {
+					if a.val && a.on == cur {
+						fc = a.fn
+					}
+					if a.val && a.on == next {
+						fn2 = a.fn
+					}
+				}
+				if fc == nil || fn2 == nil || fc != fn2 {
+					badRender = strings.Join(took, ", ")
+				}
+				continue
+			}
+			if failed {
+				continue
+			}
+			excused := assertFailed
+			for _, a := range atoms {
+				if !a.val && (a.on == cur || a.on == next) {
+					excused = true
+				}
+			}
+			if !excused {
+				badSkip = strings.Join(took, ", ")
+			}
+		}
+		c.check(badRender == "" && badSkip == "" && nrender > 0, rule, key+"|space-needed-iff-both-inline", c.pos(fd.Pos()), fmt.Sprintf("%d path(s) take the recorded trailing space, each after the same classifier held for both nodes; every other path found one of them not inline", nrender),
+			fmt.Sprintf("%s: the recorded trailing space is taken on a path where the inline classifier did not hold for both the node and its successor (%s), or is not taken on a path where nothing said otherwise (%s): whitespace is invented next to block content or lost between inline neighbours", fd.Name.Name, badRender, badSkip))
+	}
+	return found
 }
 
 // elementEmissionOrder: C02.R10 — static markup in source order: open tag, attributes, '>', children, close tag.
